@@ -211,22 +211,42 @@ type rawReq struct {
 
 // rawHTTP performs one HTTP request with net/http.
 func (e *env) rawHTTP(q rawReq) (wireStatus, error) {
-	req, err := http.NewRequest(q.Method, "http://"+e.rcv(q.Auth).httpAddr+q.Path, bytes.NewReader(q.Body))
+	mk := func() (*http.Request, error) {
+		req, err := http.NewRequest(q.Method, "http://"+e.rcv(q.Auth).httpAddr+q.Path, bytes.NewReader(q.Body))
+		if err != nil {
+			return nil, err
+		}
+		if q.ContentType != "" {
+			req.Header.Set("Content-Type", q.ContentType)
+		}
+		if q.ContentEncoding != "" {
+			req.Header.Set("Content-Encoding", q.ContentEncoding)
+		}
+		if q.CredValue != "" {
+			req.Header.Set("Authorization", q.CredValue)
+		}
+		return req, nil
+	}
+	req, err := mk()
 	if err != nil {
 		return wireStatus{}, err
 	}
-	if q.ContentType != "" {
-		req.Header.Set("Content-Type", q.ContentType)
-	}
-	if q.ContentEncoding != "" {
-		req.Header.Set("Content-Encoding", q.ContentEncoding)
-	}
-	if q.CredValue != "" {
-		req.Header.Set("Authorization", q.CredValue)
-	}
+	before, _ := e.rcv(q.Auth).sink.snapshot()
 	resp, err := e.httpc.Do(req)
 	if err != nil {
-		return wireStatus{}, err
+		// A kept-alive connection the server had closed after an earlier rejected
+		// request (net/http does not resend a POST by itself).  Retried once on a
+		// fresh connection, and only if the request did not reach the consumer.
+		e.httpc.CloseIdleConnections()
+		if after, _ := e.rcv(q.Auth).sink.snapshot(); after != before {
+			return wireStatus{}, err
+		}
+		if req, err = mk(); err != nil {
+			return wireStatus{}, err
+		}
+		if resp, err = e.httpc.Do(req); err != nil {
+			return wireStatus{}, err
+		}
 	}
 	defer resp.Body.Close()
 	body, err := io.ReadAll(io.LimitReader(resp.Body, 1<<20))
